@@ -101,7 +101,7 @@ def solve_all(eng, tier):
     if n == 0:
         return []
     nproc = int(os.environ.get("PYVC_SOLVE_PROCS", "0")) or (8 if n > 300 else 4 if n > 80 else 1)
-    hard = float(os.environ.get("PYVC_HARD_LIMIT_S", str(4 * 4 * solve.Z3_TIMEOUT_MS / 1000.0 + 30)))
+    hard = float(os.environ.get("PYVC_HARD_LIMIT_S", str(4 * solve.WALL_FACTOR * solve.Z3_TIMEOUT_MS / 1000.0 + 60)))
     tmpdir = os.path.join(os.path.dirname(os.path.dirname(os.path.abspath(__file__))), ".cache", "tmp")
     os.makedirs(tmpdir, exist_ok=True)
     out = [None] * n
